@@ -17,6 +17,9 @@ The scratch slot (output of cells without output line) and abuf are excluded.
 """
 import numpy as np
 
+# array attributes that hand out the underlying memory (accesses through them bypass the recording proxy)
+ESCAPING = {'base', 'view', 'reshape', 'ravel', 'flat', 'T', 'data', 'ctypes', 'transpose', 'swapaxes', 'squeeze'}
+
 from . import wave as W
 
 
@@ -43,6 +46,17 @@ class ShadowC:
     def __setitem__(self, key, v):
         self.mon.on_write(key)
         self.a[key] = v
+
+    def __getattr__(self, name):
+        # anything else of the array interface (base, view, reshape, ctypes, ...): handed through; memory reached that way is not observed,
+        # so the monitor stops judging instead of working with stale ownership
+        if name.startswith('__') and name.endswith('__'):
+            raise AttributeError(name)
+        val = getattr(self.a, name)
+        if name in ESCAPING:
+            self.mon.blind = True
+            self.mon.stats['unattributed'] += 1
+        return val
 
 
 class Sanitizer:
